@@ -320,7 +320,8 @@ func checkC10(c *sizeCase) *CheckResult {
 				if reqPlain > L && sc.Client.Form != FormREST && sc.Client.Form != FormConnectGet {
 					res.violate("oversized_converted", sig+":a3", "limit %d: request message of %d decompressed bytes was converted (%s -> %s) and delivered", L, reqPlain, ct, bt)
 				}
-				if codecChanged && view.Protocol != ProtoREST && view.Sub != "get" {
+				if codecChanged && view.Protocol != ProtoREST {
+					// (a message that travels to the backend in a Connect GET URL is held to the limit like one in a body)
 					if n := maxLen(view.Payloads); n > L {
 						res.violate("oversized_converted", sig+":a3", "limit %d: request message was re-encoded to %d bytes (%s -> %s) and delivered", L, n, ct, bt)
 					}
